@@ -27,7 +27,7 @@ def configs(tier, seed):
     for shut in ([None, 4] if tier == 'quick' else [None, 1, 4, 1000]):
       cfgs.append(dict(name='writer/c%s/u%s/s%s' % (cr, up, shut), mode='writer', creates=cr, updates=up, shutdown=shut))
   # the limit change at shutdown comes from the reactor thread while the writer thread is inside the bucket
-  for (up, shut) in ((5, 1), (8, 2), (12, 3)):
+  for (up, shut) in ((5, 1), (8, 2), (12, 3), (3, 50)):          # the last one raises the limits at shutdown (the documented use)
     for st in (('sorted',) if tier == 'quick' else ('sorted', 'max')):
       cfgs.append(dict(name='sched/u%s/s%s/%s' % (up, shut, st), mode='sched', updates=up, shutdown=shut, strategy=st))
   return cfgs
@@ -259,7 +259,10 @@ def run_sched(cfg, res):
       real = b.setCapacityAndFillRate
       h.limit_change = None
 
+      h.limit_change_call = None
+
       def wrapped(cap, rate):
+        h.limit_change_call = world.tick()
         r_ = real(cap, rate)
         h.limit_change = world.tick()
         return r_
@@ -275,13 +278,24 @@ def run_sched(cfg, res):
       if h.limit_change is None:
         res.inconc('limit change not observed')
         return h
+      # while setCapacityAndFillRate() is running the bucket is part old, part new: updates performed in that stretch are
+      # held against the more generous of the two regimes, those before the call against the old, those after the return
+      # against the new one
       after = [(e['vt'], 1, 0) for e in writes if e['tick'] > h.limit_change]
-      before = [(e['vt'], 1, 0) for e in writes if e['tick'] <= h.limit_change]
+      before = [(e['vt'], 1, 0) for e in writes if e['tick'] <= (h.limit_change_call if shut > up else h.limit_change)]
+      during = [(e['vt'], 1, 0) for e in writes if h.limit_change_call < e['tick'] <= h.limit_change] if shut > up else []
+      if during:
+        check_windows(res, during, [(max(up, shut), max(up, shut) + 0.5)], 'sched/updates-during-change', dict(ops=ops, deviations=h.deviations))
       res.count('writes_after_limit_change', len(after))
       wit = dict(ops=ops, deviations=h.deviations, stop_vt=h.stop_vt, writes_after=[a[0] for a in after][:30])
       # one update may have been granted under the old limits and performed just after the change: capacity + 1 below
       check_windows(res, before, [(up, up)], 'sched/updates-before-change', wit)
       check_windows(res, after, [(shut, shut + 0.5)], 'sched/updates-after-change', wit)
+      # a blocking acquisition waits and then grants: nothing in the bucket code may fail, whenever the limits change
+      for name, e in h.thread_exc:
+        res.violation('sched/thread-died/%s' % type(e).__name__, 'thread %s died with %r [%s dev=%r]' % (name, e, desc, h.deviations), wit)
+      for err in h.log_errors:
+        res.violation('sched/writer-error/%s' % err[0], 'the writer loop logged %r with no backend fault injected [%s dev=%r]' % (err[:2], desc, h.deviations), wit)
       key = (hash(repr(ops)), h.trace_hash)
       if key not in seen:
         seen.add(key)
